@@ -101,8 +101,26 @@ def witness_in_case(Xc, want, C1, C2, signs, fresh, params):
     msyms = [v.single_atom() for k, v in fresh.items() if v.single_atom().symname.startswith("Msat")]
     tsat = [v.single_atom() for k, v in fresh.items() if v.single_atom().symname.startswith("Tsat")]
     pa = [p_.s().single_atom() for p_ in params]            # F_max, l, Cm, T
-    for fmax_v, tv in itertools.product((Fr(8), Fr(20)), (Fr(1), Fr(6), Fr(16), Fr(30), Fr(60))):
-        for combo in itertools.product((Fr(-2), Fr(-1), Fr(1, 2), Fr(3)), repeat=len(msyms)):
+    cands = [(f_, t_, c_) for f_, t_ in itertools.product((Fr(8), Fr(20)), (Fr(1), Fr(6), Fr(16), Fr(30), Fr(60)))
+             for c_ in itertools.product((Fr(-2), Fr(-1), Fr(1, 2), Fr(3)), repeat=len(msyms))]
+    # points just inside a case: a headroom of -+F_max/4000 (the forces are affine in the thrust level, so the level that
+    # puts max(F_sum) resp. min(F_sum) there is found by one evaluation at level 0) - a tolerance band around "exactly
+    # saturated" that swallows a real over-saturation shows here and nowhere on the coarse grid
+    for f_ in (Fr(8),):
+        for c_ in itertools.product((Fr(-1), Fr(1, 2)), repeat=len(msyms)):
+            pt0 = {pa[0]: f_, pa[1]: Fr(1, 4), pa[2]: Fr(1, 16), pa[3]: Fr(0)}
+            pt0.update({a: Fr(0) for a in tsat})
+            pt0.update(dict(zip(msyms, c_)))
+            sc0 = Scan(pt0)
+            c1, c2 = sc0.poly(C1), sc0.poly(C2)
+            if c1 is None or c2 is None:
+                continue
+            n_ = Xc.r
+            for eps in (Fr(1, 4000), Fr(-1, 4000)):
+                cands.append((f_, (c1 + eps * f_) * n_, c_))          # C1 = -eps F_max at this level
+                cands.append((f_, (-c2 - eps * f_) * n_, c_))         # C2 = -eps F_max
+    for fmax_v, tv, combo in cands:
+        if True:
             pt = {pa[0]: fmax_v, pa[1]: Fr(1, 4), pa[2]: Fr(1, 16), pa[3]: tv}
             pt.update({a: tv for a in tsat})
             pt.update(dict(zip(msyms, combo)))
